@@ -141,6 +141,22 @@ const c08Fixed = `
   > {n: db.autos.length()}
 }
 
+# a key that has expired is read by some requests while others write it again
+@ POST /fixed/ttlset/:key {
+  % redis: Redis
+  > {r: redis.set("ttl:" + key, input.v, 0)}
+}
+
+@ POST /fixed/kvset/:key {
+  % redis: Redis
+  > {r: redis.set("ttl:" + key, input.v)}
+}
+
+@ GET /fixed/kvget/:key {
+  % redis: Redis
+  > {v: redis.get("ttl:" + key)}
+}
+
 @ GET /fixed/incr/:key {
   % redis: Redis
   > {n: redis.incr("ctr:" + key)}
@@ -151,6 +167,8 @@ const c08Fixed = `
   > {n: redis.get("ctr:" + key)}
 }
 `
+
+const c08TTLKeys = 24
 
 type c08Req struct {
 	Kind string `json:"kind"` // sum genint genstr wrapint wrapstr create get put del preview incr shared pure
@@ -163,7 +181,7 @@ type c08Case struct {
 	Clients [][]c08Req `json:"clients"`
 }
 
-var c08Kinds = []string{"cbsum", "redsum", "pipesum", "gsum", "asyncsum", "sum", "sum", "genint", "genstr", "wrapint", "wrapstr", "create", "create", "get", "get", "put", "del", "preview", "incr", "shared", "sget", "sget", "sput", "crud", "peek", "auto", "auto", "pure", "pure", "pure"}
+var c08Kinds = []string{"ttl", "ttl", "cbsum", "redsum", "pipesum", "gsum", "asyncsum", "sum", "sum", "genint", "genstr", "wrapint", "wrapstr", "create", "create", "get", "get", "put", "del", "preview", "incr", "shared", "sget", "sget", "sput", "crud", "peek", "auto", "auto", "pure", "pure", "pure"}
 
 func c08Profile() lang.Profile {
 	p := c02Profile()
@@ -193,6 +211,19 @@ func genC08(rt *rapid.T) c08Case {
 				}
 				for _, k := range seq {
 					rs = append(rs, c08Req{Kind: k, Arg: x})
+				}
+				continue
+			case "ttl":
+				// a key whose TTL has run out (set up before the clients start): read it, write it, read it again
+				// (the window is one read of the expired entry per key, so a client sweeps many keys:
+				// readers only read, writers write and read back, all in the same key order)
+				writer := lang.Spread(rt, "tw", 2) == 0
+				for x := 0; x < c08TTLKeys; x++ {
+					if writer {
+						rs = append(rs, c08Req{Kind: "kvset", Arg: x}, c08Req{Kind: "kvget", Arg: x})
+					} else {
+						rs = append(rs, c08Req{Kind: "kvget", Arg: x})
+					}
 				}
 				continue
 			case "auto":
@@ -271,6 +302,10 @@ func (c *c08Case) request(client int, r c08Req) *http.Request {
 		return mk("GET", "/fixed/incr/shared", "")
 	case "auto":
 		return mk("POST", "/fixed/autos", fmt.Sprintf(`{"owner": "client-%d"}`, client))
+	case "kvget":
+		return mk("GET", fmt.Sprintf("/fixed/kvget/k%d", r.Arg), "")
+	case "kvset":
+		return mk("POST", fmt.Sprintf("/fixed/kvset/k%d", r.Arg), fmt.Sprintf(`{"v": "new-%d"}`, client))
 	case "sget":
 		return mk("GET", "/fixed/items/9999", "")
 	case "sput":
@@ -313,6 +348,12 @@ func runC08(c c08Case) evid.Outcome {
 			rq := httptest.NewRequest("POST", "http://verif.test/fixed/items", strings.NewReader(`{"id": 9999, "name": "shared-initial"}`))
 			rq.Header.Set("Content-Type", "application/json")
 			s.do(rq)
+			// two keys that are already expired when the clients start
+			for k := 0; k < c08TTLKeys; k++ {
+				rq := httptest.NewRequest("POST", fmt.Sprintf("http://verif.test/fixed/ttlset/k%d", k), strings.NewReader(`{"v": "old"}`))
+				rq.Header.Set("Content-Type", "application/json")
+				s.do(rq)
+			}
 		}
 		return s, err
 	}
@@ -408,6 +449,28 @@ func runC08(c c08Case) evid.Outcome {
 				autoIDs[id] = g.Body
 				continue
 			}
+			if r.Kind == "kvset" || r.Kind == "kvget" {
+				// nothing deletes these keys and every write is without a TTL: once this client has
+				// written the key, each of its later reads returns a value some client wrote
+				if g.Panic != "" || g.Status != 200 {
+					return evid.Failf("c08.provider-operation-failed", "client %d request %d (%s): %s", i, j, r.Kind, g)
+				}
+				if r.Kind == "kvget" {
+					wroteBefore := false
+					for jj := 0; jj < j; jj++ {
+						if c.Clients[i][jj].Kind == "kvset" && c.Clients[i][jj].Arg == r.Arg {
+							wroteBefore = true
+						}
+					}
+					if wroteBefore && !strings.Contains(g.Body, `"v":"new-`) {
+						return evid.Failf("c08.provider-operation-not-atomic", "client %d request %d: redis.get of a key this client has just set (no TTL, nobody deletes it) returned %s - a write was lost to a concurrent read of the expired entry", i, j, g.Body)
+					}
+					if strings.Contains(g.Body, `"v":"old"`) {
+						return evid.Failf("c08.expired-value-served", "client %d request %d: the expired value came back: %s", i, j, g.Body)
+					}
+				}
+				continue
+			}
 			if r.Kind == "sget" || r.Kind == "sput" {
 				// shared record: any name some request wrote is a valid read; the reply must be well-formed
 				if g.Panic != "" || g.Status != 200 || !(strings.Contains(g.Body, `"name":"shared-`) && strings.Contains(g.Body, `"id":9999`)) {
@@ -459,4 +522,93 @@ func runC08(c c08Case) evid.Outcome {
 
 func TestC08Conc(t *testing.T) {
 	evid.Run(t, "C08", "c08-conc", evid.Opts{Journal: true}, genC08, runC08)
+}
+
+// ---- c08-storm: many short rounds around the one window a race on provider state has ----------
+// Each round re-creates the state the window needs (keys whose TTL has run out), then lets readers
+// and writers sweep the keys at the same time. The invariant is the provider-atomicity clause: no
+// operation deletes these keys and every write is without a TTL, so once a client has written a
+// key, its own later reads return a value some client wrote.
+
+type c08Storm struct {
+	Interp  bool `json:"interp"`
+	Readers int  `json:"readers"`
+	Writers int  `json:"writers"`
+	Rounds  int  `json:"rounds"`
+	Keys    int  `json:"keys"`
+}
+
+func genC08Storm(rt *rapid.T) c08Storm {
+	return c08Storm{Interp: true, Readers: 1 + lang.Spread(rt, "readers", 3), Writers: 1 + lang.Spread(rt, "writers", 3), Rounds: 20 + lang.Spread(rt, "rounds", 40), Keys: 4 + lang.Spread(rt, "keys", 20)}
+}
+
+func runC08Storm(c c08Storm) evid.Outcome {
+	s, err := newVServer(c08Fixed, c.Interp)
+	if err != nil {
+		return evid.Outcome{Skip: "module refused at start-up: " + err.Error()}
+	}
+	defer s.shutdown()
+	post := func(path, body string) vResp {
+		rq := httptest.NewRequest("POST", "http://verif.test"+path, strings.NewReader(body))
+		rq.Header.Set("Content-Type", "application/json")
+		return s.do(rq)
+	}
+	get := func(path string) vResp { return s.do(httptest.NewRequest("GET", "http://verif.test"+path, nil)) }
+	for round := 0; round < c.Rounds; round++ {
+		for k := 0; k < c.Keys; k++ {
+			if r := post(fmt.Sprintf("/fixed/ttlset/r%dk%d", round, k), `{"v": "old"}`); r.Status != 200 {
+				return evid.Failf("c08.provider-operation-failed", "setting up an expired key: %d %s", r.Status, r.Body)
+			}
+		}
+		var wg sync.WaitGroup
+		start := make(chan struct{})
+		fails := make(chan string, c.Readers+c.Writers)
+		for rd := 0; rd < c.Readers; rd++ {
+			wg.Add(1)
+			go func() {
+				defer wg.Done()
+				<-start
+				for k := 0; k < c.Keys; k++ {
+					if r := get(fmt.Sprintf("/fixed/kvget/r%dk%d", round, k)); r.Panic != "" || r.Status != 200 || strings.Contains(r.Body, `"old"`) {
+						fails <- fmt.Sprintf("reader: GET key %d -> %d %s %s", k, r.Status, r.Body, r.Panic)
+						return
+					}
+				}
+			}()
+		}
+		for wr := 0; wr < c.Writers; wr++ {
+			wg.Add(1)
+			go func(wr int) {
+				defer wg.Done()
+				<-start
+				for k := 0; k < c.Keys; k++ {
+					if r := post(fmt.Sprintf("/fixed/kvset/r%dk%d", round, k), fmt.Sprintf(`{"v": "new-%d"}`, wr)); r.Panic != "" || r.Status != 200 {
+						fails <- fmt.Sprintf("writer %d: set key %d -> %d %s %s", wr, k, r.Status, r.Body, r.Panic)
+						return
+					}
+					if r := get(fmt.Sprintf("/fixed/kvget/r%dk%d", round, k)); !strings.Contains(r.Body, `"v":"new-`) {
+						fails <- fmt.Sprintf("writer %d: redis.get of key %d right after its own redis.set (no TTL; nothing deletes the key) returned %d %s - the write was lost to a concurrent read of the expired entry", wr, k, r.Status, r.Body)
+						return
+					}
+				}
+			}(wr)
+		}
+		ok, p := evid.WithTimeout(60*time.Second, func() { close(start); wg.Wait() })
+		if !ok {
+			return evid.Failf("c08.requests-block", "round %d did not finish within its budget", round)
+		}
+		if p != nil {
+			return evid.Failf("c08.panic", "panic outside a handler: %v", p)
+		}
+		select {
+		case f := <-fails:
+			return evid.Failf("c08.provider-operation-not-atomic", "round %d (%d readers, %d writers, %d expired keys): %s", round, c.Readers, c.Writers, c.Keys, f)
+		default:
+		}
+	}
+	return evid.Outcome{Nontrivial: true, Labels: []string{fmt.Sprintf("readers:%d", c.Readers), fmt.Sprintf("writers:%d", c.Writers)}}
+}
+
+func TestC08Storm(t *testing.T) {
+	evid.Run(t, "C08", "c08-storm", evid.Opts{Journal: true}, genC08Storm, runC08Storm)
 }
